@@ -532,7 +532,7 @@ CLAIMED.update({
                  "evhttp_uri_set_port exactly -1..65535; J — evhttp_uri_join evaluated on 1848 combinations of component shapes either refuses or produces a string that the RFC 3986 Appendix B split "
                  "takes apart into exactly the components that were set; S — every setter validates with the predicate the parser uses. Found and repaired: join wrote paths that parse back as an "
                  "authority or a scheme; set_port accepted ports above 65535. Declined: that evhttp_uri_parse_with_flags splits every input string as RFC 3986 does (in-place parser on a copy of the "
-                 "input; evaluating it would decide a sample of inputs), the UNIX_SOCKET and NONCONFORMANT forms. A (authority): parse_authority evaluated on 40 authority strings (in mutable byte memory, followed by a path or the terminator) x STRIP_BRACKETS: accepts exactly RFC 3986 authorities, stores exactly their userinfo / host / port, the host without brackets and the internal had-brackets bit iff asked, reads only the authority, writes only its allocations. H (host setter): evhttp_uri_set_host over host forms x public flags x prior state stores what evhttp_uri_join will write back as the host that was set, never touches public flags, a refused host changes nothing; evhttp_uri_set_flags keeps the internal bit; no other writer of uri->flags (two genuine defects fixed in /repo).",
+                 "input; evaluating it would decide a sample of inputs), the UNIX_SOCKET and NONCONFORMANT forms. A (authority): parse_authority evaluated on 40 authority strings (in mutable byte memory, followed by a path or the terminator) x STRIP_BRACKETS: accepts exactly RFC 3986 authorities, stores exactly their userinfo / host / port, the host without brackets and the internal had-brackets bit iff asked, reads only the authority, writes only its allocations. H (host setter): evhttp_uri_set_host over host forms x public flags x prior state stores what evhttp_uri_join will write back as the host that was set, never touches public flags, a refused host changes nothing; evhttp_uri_set_flags keeps the internal bit; no other writer of uri->flags (two genuine defects fixed in /repo). U (whole parser): evhttp_uri_parse_with_flags evaluated on 68 URI-reference forms x STRIP_BRACKETS and 13 unix-socket forms against an RFC 3986 reference: same accept/refuse and same components (found: the documented unix-socket form lost its path, query and fragment; join wrote unix-socket URIs that do not parse; three more genuine defects fixed).",
          "note": STD_NOTE + ORDER_NOTE,
          "technique": "static analysis: exhaustive evaluation of the extracted validators over byte values (K6), decision table of evhttp_uri_join against the RFC 3986 split (K6), sibling agreement (K7)"},
 })
